@@ -163,18 +163,21 @@ def n_rule(big=True):
 
 
 @st.composite
-def intervals(draw, max_logratio=8.6, allow_special=True):
+def intervals(draw, max_logratio=8.6, allow_special=True, extreme=False):
     """(a, b) with |b-a| >= ~2.5e-9*max(|a|,|b|) for the default max_logratio."""
     kind = draw(st.sampled_from(["special", "general", "general", "general"] if allow_special
                                 else ["general"]))
     if kind == "special":
         return draw(st.sampled_from([(-1.0, 1.0), (0.0, 1.0), (-1.0, 0.0), (1.0, -1.0), (-3.0, -2.0),
                                      (0.0, 1e-9), (-1e9, 1e9), (2.0, 5.0), (1.0, 0.0), (-0.5, 0.25)]))
-    width = 10.0 ** draw(st.floats(-9, 9))
+    # widths over 18 decades; one interval in five much narrower or wider still ("tiny and huge widths": the rule
+    # is scale-free, an absolute threshold on the width has no business in it)
+    width = 10.0 ** draw(st.one_of(st.floats(-9, 9), st.floats(-9, 9), st.floats(-9, 9), st.floats(-9, 9),
+                                   st.floats(-200, 200) if extreme else st.floats(-9, 9)))
     if draw(st.integers(0, 4)) == 0:
         centre = 0.0
     else:
-        centre = min(width * 10.0 ** draw(st.floats(-3, max_logratio)), 1e6)
+        centre = min(width * 10.0 ** draw(st.floats(-3, max_logratio)), max(1e6, width))
         if draw(st.booleans()):
             centre = -centre
     a, b = centre - width / 2, centre + width / 2
@@ -207,7 +210,7 @@ def _interval_labels(a, b, n=None):
 @st.composite
 def rule_cases(draw):
     n = draw(n_rule())
-    a, b = draw(intervals(max_logratio=8.6 if n <= 200 else 4.6))
+    a, b = draw(intervals(max_logratio=8.6 if n <= 200 else 4.6, extreme=True))
     return {"n": n, "a": a, "b": b}
 
 
@@ -465,6 +468,7 @@ def data_cases(draw):
     xs, ys = draw(tables())
     return {"n": draw(st.one_of(st.integers(1, 120), N_SMALL)), "x": xs, "y": ys,
             "xint": draw(st.sampled_from([None, "i8", "i4"])), "layout": draw(st.sampled_from(LY.KINDS)),
+            "yint": draw(st.sampled_from([None, None, None, "i8", "i2"])),
             "call": draw(st.sampled_from(["integrate", "integrate_data", "qgauss", "npts-in-call"]))}
 
 
@@ -479,6 +483,9 @@ def check_data(case, ctx):
     xs, ys = np.array(case["x"], dtype="f8"), np.array(case["y"], dtype="f8")
     if case.get("xint") and np.all(xs == np.round(xs)):
         xs = xs.astype(case["xint"])          # an integer-typed abscissa column (np.arange and the like)
+    if case.get("yint"):
+        # integer-typed ordinates (counts, histograms): the values are rounded first, the reference uses them
+        ys = np.round(ys * (100.0 / max(1e-300, float(np.max(np.abs(ys)))))).astype(case["yint"])
     lay = case.get("layout", "contig")
     xs, ys = LY.relayout(xs, lay), LY.relayout(ys, lay)
     x0, y0 = xs.copy(), ys.copy()
@@ -493,7 +500,7 @@ def check_data(case, ctx):
         got = must(must(ei.QGauss).integrate, xs, ys, npts=n)
     require(np.ndim(got) == 0, "integrate returned a non-scalar %r", type(got))
     require(np.array_equal(xs, x0) and np.array_equal(ys, y0), "integrate_data modified its inputs")
-    ref = _ref_data_integral(n, case["x"], case["y"])
+    ref = _ref_data_integral(n, case["x"], [float(v) for v in y0.tolist()])
     tol = 1e-9 * float(xs[-1] - xs[0]) * float(np.max(np.abs(ys))) + FLOOR
     err = float(abs(LD(got) - ref))
     require(err <= tol, "%s over a %d-point table with n=%d = %r, reference %r (diff %.3g > %.3g)",
